@@ -53,6 +53,9 @@ namespace cnl::_impl {
         if constexpr (InExponent < 0) {
             for (int in_exponent = InExponent;
                  in_exponent != 0 || (Precise && !(output.significand % OutRadix));) {
+#if defined(JOHNMCFARLANE_CNL_VERIF)
+                JOHNMCFARLANE_CNL_VERIF_TICK(2);
+#endif
                 if (output.significand % InRadix) {
                     if (oob(output.significand)) {
                         if (Precise) {
@@ -71,6 +74,9 @@ namespace cnl::_impl {
         } else {
             for (int in_exponent = InExponent;
                  in_exponent != 0 || !(output.significand % OutRadix);) {
+#if defined(JOHNMCFARLANE_CNL_VERIF)
+                JOHNMCFARLANE_CNL_VERIF_TICK(3);
+#endif
                 if (!(output.significand % OutRadix)) {
                     output.significand /= OutRadix;
                     output.exponent++;
